@@ -1,6 +1,7 @@
 /-
   C09 — a sidecar resumes its acknowledged assignment after restart or crash.
 -/
+import Kvass.Pins.Store
 import Kvass.Model.Store
 
 namespace Kvass.Props.C09
